@@ -131,7 +131,10 @@ func (im *Map[K, V]) getValue(p *rlItem[K, V]) *rlItem[K, V] {
 func (im *Map[K, V]) release(p *rlItem[K, V]) {
 	p.refCnt--
 	if p.state == rlDeleted {
-		p.delete()
+		head := p.delete()
+		if head != nil {
+			im.head = head
+		}
 		if p.refCnt == 0 {
 			im.pool.Put(p)
 		}
